@@ -133,16 +133,30 @@ class C16(Prop):
                     # a look-alike of a transition that is there: same ends and event, another priority or guard
                     t0 = rnd.choice(sc2.transitions)
                     j0 = copy.deepcopy(ChartEnc(sc2).json['transitions'][ChartEnc(sc2).tid(t0)])
-                    if rnd.random() < 0.6:
+                    c = rnd.random()
+                    if c < 0.4:
                         j0['priority'] = rnd.choice([p for p in (-1, 0, 1, 2, 5) if p != j0.get('priority', 0)])
-                    else:
+                    elif c < 0.7:
                         j0['guard'] = enc_code(rnd.choice(['x > 1', 'x < 5', 'v0']), 'eval')[0]
+                    else:
+                        # … or nothing but another contract
+                        kind = rnd.choice(['pre', 'post', 'inv'])
+                        j0[kind] = list(j0.get(kind, [])) + [enc_code(rnd.choice(['x >= 0', 'x + 1 > x', 'y >= 0']), 'eval')[0]]
                     op = [k, j0]
             elif k == 'remove_transition':
                 ts = sc2.transitions
                 if ts and rnd.random() < 0.85:
                     t = rnd.choice(ts)
                     op = [k, ChartEnc(sc2).json['transitions'][ChartEnc(sc2).tid(t)]]
+                    if rnd.random() < 0.15:
+                        # a transition that is not registered: it differs from a registered one in a contract only
+                        j0 = copy.deepcopy(op[1])
+                        kind = rnd.choice(['pre', 'post', 'inv'])
+                        if j0.get(kind) and rnd.random() < 0.5:
+                            j0[kind] = list(j0[kind])[:-1]
+                        else:
+                            j0[kind] = list(j0.get(kind, [])) + [enc_code('x * 2 >= x', 'eval')[0]]
+                        op = [k, j0]
                 else:
                     op = [k, {'id': 0, 'source': pick(), 'target': None, 'event': 'never', 'guard': None,
                               'action': None, 'priority': 0}]
